@@ -5,7 +5,7 @@
    All statements are about every reachable state: any number of threads, any interleaving, any number of generations,
    spurious futex returns and spurious weak-CAS failures included. *)
 From Coq Require Import ZArith Bool List.
-From Verif Require Import Word Conc Gen_consts Gen_group Group Group_iface Group_proofs.
+From Verif Require Import Word Conc Gen_consts Gen_group Group Group_iface Group_proofs GroupR_inv GroupR GroupR_proofs.
 Import ListNotations.
 Local Open Scope Z_scope.
 
@@ -161,6 +161,20 @@ Theorem C07_model_uses_thread_automaton : forall s t e s',
   gstep s t e = Some s' -> tstep (pcs s t) e = Some (pcs s' t).
 Proof. exact gstep_tstep. Qed.
 Print Assumptions C07_model_uses_thread_automaton.
+
+(* the replay of whole recorded rounds on the global model (Model/GroupR.v): whatever queues and preferred order the
+   scheduler is given, it only takes steps of Group.gstep, so the state it reports is reachable and the threads it was not
+   given never moved; and the boolean invariant it evaluates (Model/GroupR_inv.v: the decidable clauses of Inv1, Inv2, Inv3) is
+   true on that state as long as fewer than 2^32 generations elapsed *)
+Theorem C07_replay_reach : forall chk period qs ord, qs_ok qs = true ->
+  let s' := fst (fst (fst (fst (sched chk period (S (length ord)) (length ord) init_state qs ord 0 (-1))))) in
+  reach s' /\ others_idle (map fst qs) s'.
+Proof. exact replay_reach. Qed.
+Print Assumptions C07_replay_reach.
+Theorem C07_inv_b_true : forall tids s,
+  reach s -> gfull s < 4294967296 -> others_idle tids s -> inv_b tids s = true.
+Proof. exact inv_b_true. Qed.
+Print Assumptions C07_inv_b_true.
 
 (* non-vacuity: thread 1 enters, thread 3 waits forever (sets HAS_WAITERS, sleeps on generation 0), thread 2 performs the
    last leave (carry: generation 1), clears the bit, wakes; thread 3 reloads the generation and returns 0 *)
